@@ -178,6 +178,38 @@ class CellCtx:
                     rec["status"] = "unknown"
                     rec["detail"] = f"solver disagreement: z3-5.1 unsat vs {ans}"
                     res.status = "unknown"
+        if res.status == "unknown" and replay is not None and not canary and ob.pairs:
+            # The solver could not decide (typically on a changed tree whose expressions are harder).  Look for a counterexample
+            # numerically: evaluate both sides at a few seeded points of the input space; where they differ (and the assumptions
+            # hold) the point is replayed on the real code like a solver witness.  Only a reproduced deviation is reported.
+            import random as _random
+            from . import sym as _S
+            try:
+                _, all_atoms, _ = ob.script(with_axioms=True)   # every atom, including those nested inside sqrt / recip / def / ite
+            except Exception:  # noqa: BLE001
+                all_atoms = []
+            names = sorted({_S.CTX.atoms[a][1] for a in all_atoms if _S.CTX.atoms[a][0] == "var"})
+            for trial in range(4):
+                rng = _random.Random(1000 * trial + len(names))
+                cand = {n: (float(_S.CONST_VALUES[n]) if n in _S.CONST_VALUES else rng.randint(-16, 16) / 8.0 * (10.0 ** -trial)) for n in names}
+                try:
+                    if not all(_S.eval_bool(a, cand, {}) for a in ob.assumptions):
+                        continue
+                    lv = _S.eval_array(np.array([l for l, _ in ob.pairs], dtype=object), cand)
+                    rv = _S.eval_array(np.array([r for _, r in ob.pairs], dtype=object), cand)
+                except Exception:  # noqa: BLE001 - uninterpreted functions etc.: cannot be evaluated
+                    break
+                if not self.deviates(lv, rv)[0]:
+                    continue
+                try:
+                    ok, detail = replay(cand, {})
+                except Exception:  # noqa: BLE001
+                    ok, detail = False, ""
+                if ok:
+                    rec.update(status="sat", detail="solver unknown; counterexample found numerically and replayed on the real code",
+                               witness=cand, bwitness={}, reproduced=True, replay_detail=detail)
+                    self._record(rec)
+                    return "sat"
         if res.status == "sat":
             vals = {k: float(v) for k, v in res.var_values().items()}
             bvals = {k: bool(v) for k, v in res.bvalues.items()}
